@@ -211,6 +211,9 @@ def gen_person(rng: Any) -> dict[str, Any]:
         name = gen_text(rng, 1, 3, angle=False, blanks=rng.random() < 0.3)
         if rng.random() < 0.15:
             name = "é" + name  # decomposed: combine_unicode (NFC) applies to authors
+        if rng.random() < 0.12:
+            # compatibility characters: NFC keeps them, a compatibility normalisation (NFKC) would fold them
+            name = name + rng.choice([" Ste\ufb01", " Acme\u2122", " \u2167", " \uff2a\uff4f", " x\u00b2"])
     if k < 0.6:
         return {"name": name, "email": gen_email(rng)}
     return {"name": name, "email": None}
